@@ -110,11 +110,16 @@ CHECKS = {
     ),
     "C16": dict(
         engine="verus-units", design_ref="DESIGN.md §5 C16", technique="deductive verification (Verus/Z3) of function contracts and representation invariants on extracted real code",
-        text="Identifier-freshness clause only, for all states: generate_key_id returns the existing id of a known key (maps unchanged) or a fresh id for a new "
+        text="For all states. Identifier freshness: generate_key_id returns the existing id of a known key (maps unchanged) or a fresh id for a new "
              "key and keeps keys_map / id_keys_map inverse of each other with pairwise distinct ids; Databases::next_db_id / create_temp_db hand out a database id "
-             "that is not registered, and add_database keeps 'every database is filed under its own id' (hence no two databases share an id).",
-        level_note="The crash/restart half of C16 (flag, key map and oplog write order under kill at any instant) is NOT decided. Invariants on the maps loaded "
-                   "from disk are preconditions. Sequential semantics.",
+             "that is not registered, and add_database keeps 'every database is filed under its own id' (hence no two databases share an id). "
+             "Order of the writes (unit oplogflag, the disk made explicit as a token): the crash invariant 'flag on disk = 1 implies the key map ON DISK names every key id the "
+             "oplog mentions' holds after every file operation of the real invalidate_oplog, mark_op_log_as_valid, snapshot_keys (key map written BEFORE the flag is set), "
+             "generate_key_id (flag cleared BEFORE it returns the new id) and the three arms of the replication thread that log a key (id registered BEFORE the record is "
+             "appended) - so a kill between any two file operations leaves a node that either discards its log or decodes it.",
+        level_note="File operations are atomic and reach the disk in program order (no fsync in the code); kills inside one write (torn key map / record) are C11-like and NOT decided; "
+                   "the start-up decision in bin/main.rs and the invariants of the maps loaded from disk are preconditions. Sequential semantics (the seed that sets the flag first "
+                   "argues with a race between the replication thread and the snapshot: not decided either way).",
     ),
     "C17": dict(
         engine="verus-units", design_ref="DESIGN.md §5 C17 (added in §10)", technique="deductive verification (Verus/Z3) of function contracts on extracted real code, incl. one dispatcher arm (R10), plus accounting lemmas",
